@@ -16,6 +16,7 @@ pub mod c15;
 pub mod c16;
 pub mod c17;
 pub mod c18;
+pub mod c19;
 #[cfg(feature = "backends")]
 pub mod c20;
 
@@ -41,6 +42,7 @@ pub fn dispatch(ctx: &Ctx) -> Option<(Report, Meta)> {
         "C16" => c16::run(ctx),
         "C17" => c17::run(ctx),
         "C18" => c18::run(ctx),
+        "C19" => c19::run(ctx),
         #[cfg(feature = "backends")]
         "C20" => c20::run(ctx),
         _ => return None,
